@@ -70,6 +70,8 @@ def run(ctx: Ctx):
     )
     res.rule("STATS-FROM-FIT", "CP_PLSR.predict / transform centre the query data with the means stored by fit: no statistic (mean / std / ...) of the query batch is computed, directly or through a helper whose statistic parameter keeps its None default", floor=2)
     ctx.guarded(stats_from_fit, ctx)
+    res.rule("TRANSFORM-DELEGATES", "a regressor that offers both transform and fit_transform returns from fit_transform what transform returns for the same data after fit: every return of fit_transform is a call of `.transform(<its own arguments>)` on the fitted object -- not the model's own arrays handed out by reference (which a caller can overwrite, after which transform no longer agrees with the exposed scores)", floor=1)
+    ctx.guarded(transform_delegates, ctx)
     res.rule("FILL-COMPLETE", "CP_PLSR.fit writes one column of every preallocated (all-zero) loading matrix per pass of its component loop `for c in range(n_components)`; that loop has no early exit (break / return) of its own, so no component is left at its zero initial value (loadings of every component have unit norm)", floor=2)
     ctx.guarded(fill_complete, ctx)
     for cq, spec in REGRESSORS.items():
@@ -309,3 +311,42 @@ def fill_complete(ctx: Ctx):
         res.instance("FILL-COMPLETE", f"{f.qname}: early exits of the component loop", sample={"exits": [src(e)[:40] for e in exits], "ok": not exits})
         for e in exits:
             ctx.finding("FILL-COMPLETE", f, e, f"the component loop `for {c} in {src(lp.iter)[:40]}` can be left early (`{src(e)[:40]}` at line {e.lineno}): the columns of the preallocated loading matrices that were not reached stay zero, so the model exposes components whose loadings do not have unit norm (and predict / transform use them)", construct=f"CP_PLSR.fit: early exit of the component loop ({src(e)[:30]})")
+
+
+# ---------------------------------------------------------------------------------
+# TRANSFORM-DELEGATES: fit_transform is fit followed by transform
+# ---------------------------------------------------------------------------------
+def transform_delegates(ctx: Ctx):
+    from .state import _resolve_at
+
+    repo, res = ctx.repo, ctx.res
+    n = 0
+    for ci in repo.classes.values():
+        if not ci.module.name.startswith("tensorly.regression."):
+            continue
+        ft, tr = ci.methods.get("fit_transform"), ci.methods.get("transform")
+        if ft is None or tr is None:
+            continue
+        n += 1
+        rets = [r for r in own_scope_nodes(ft.node) if isinstance(r, ast.Return)]
+        own_args = [p for p in ft.all_params if p != ft.self_name]
+        for r in rets:
+            v = _resolve_at(r.value, r, ft.node, depth=3) if r.value is not None else None
+            ok, why = False, "does not return the result of transform"
+            if isinstance(v, ast.Call) and isinstance(v.func, ast.Attribute) and v.func.attr == "transform":
+                recv = v.func.value
+                fitted = (isinstance(recv, ast.Call) and isinstance(recv.func, ast.Attribute) and recv.func.attr == "fit") or (
+                    isinstance(recv, ast.Name) and recv.id == ft.self_name and any(isinstance(c, ast.Call) and isinstance(c.func, ast.Attribute) and c.func.attr == "fit" and getattr(c, "lineno", 0) <= r.lineno for c in own_scope_nodes(ft.node))
+                )
+                passed = [a.id for a in v.args if isinstance(a, ast.Name)] + [k.value.id for k in v.keywords if isinstance(k.value, ast.Name)]
+                if not fitted:
+                    why = "calls transform on an object that was not fitted first"
+                elif passed[: len(own_args)] != own_args and sorted(passed) != sorted(own_args):
+                    why = f"hands transform {passed} instead of its own arguments {own_args}"
+                else:
+                    ok = True
+            res.instance("TRANSFORM-DELEGATES", f"{ft.qname}: {src(r)[:60]}", sample={"ok": ok})
+            if not ok:
+                ctx.finding("TRANSFORM-DELEGATES", ft, r, f"{ci.name}.fit_transform {why} (`{src(r)[:70]}`): what it returns need not be what transform returns for the training data -- and if it is the model's own arrays (self.<factors>[...]), the caller holds a reference into the fitted state, so editing the returned scores silently changes what predict / transform compute afterwards", construct=f"{ci.name}.fit_transform: not fit(...).transform(...)")
+    if n == 0:
+        raise AnalysisError("TRANSFORM-DELEGATES: no regressor offers both transform and fit_transform any more; cannot decide")
